@@ -139,7 +139,7 @@ func c04(c *Ctx) {
 		}
 		return nil
 	}
-	nAgg := c.N(1500, 40000)
+	nAgg := c.N(5000, 60000)
 	for i := 0; i < nAgg; i++ {
 		n := c.Rng.Intn(9)
 		var vals []*big.Rat
@@ -189,7 +189,7 @@ func c04(c *Ctx) {
 	c.RunEvalCases()
 
 	// random decimals with <= 15 significant digits, exponents -12..12
-	nRand := c.N(4000, 150000)
+	nRand := c.N(15000, 300000)
 	randDec := func() (string, *big.Rat, *D) {
 		digits := 1 + c.Rng.Intn(15)
 		var sb strings.Builder
